@@ -356,3 +356,43 @@ Lemma repair_unfixed_rule_destroys_cold_lemma :
 Proof.
   exists wit_x, (Snapshot, 5), [1; 2; 3; 4]. vm_compute. repeat split; try reflexivity. discriminate.
 Qed.
+
+(* ------------------------------------------------------------ the tree packs come from the index
+   (every section: packs and packs_to_delete - a pack that prune only marked is still in both stores) *)
+Definition index_names (kind : id -> bool) (idx : list index_entry) : Prop :=
+  forall i, kind i = existsb (fun e => N.eqb i (ie_id e) && blob_eqb (ie_blob e) Tree) idx.
+
+Lemma mem_map_filter (p : index_entry -> bool) i idx :
+  mem i (map ie_id (filter p idx)) = existsb (fun e => N.eqb i (ie_id e) && p e) idx.
+Proof.
+  induction idx as [|e r IH]; [reflexivity|]. cbn [filter existsb].
+  destruct (p e) eqn:Pe; cbn [map mem existsb]; fold (mem i (map ie_id (filter p r))); rewrite IH.
+  - rewrite andb_true_r. reflexivity.
+  - rewrite andb_false_r. reflexivity.
+Qed.
+
+Lemma tree_packs_of_kind kind idx : index_names kind idx -> forall i, mem i (tree_packs_of idx) = kind i.
+Proof.
+  intros H i. rewrite (H i). unfold tree_packs_of. rewrite mem_map_filter.
+  apply existsb_ext_local. intros e _.
+  assert (Hs : forall s, existsb (sec_eqb s) tree_pack_sections = true) by (intro s; destruct s; reflexivity).
+  rewrite Hs. assert (Hb : tree_pack_blob = Tree) by reflexivity. rewrite Hb. reflexivity.
+Qed.
+
+Lemma repair_from_index_lemma kind content idx x ds :
+  repair_hot_only_rule = HotOnlyNotInCold ->
+  index_names kind idx ->
+  I kind content x ->
+  let y := repair_all_idx idx (damage_hot ds x) in
+  HotComplete kind y /\ (forall k b, get k (cold x) = Some b -> get k (cold y) = Some b).
+Proof.
+  intros Hr Hi HI. unfold repair_all_idx.
+  apply (repair_after_damage_lemma kind content (tree_packs_of idx) x ds Hr (tree_packs_of_kind kind idx Hi) HI).
+Qed.
+
+(* with only the `packs` section a tree pack that is marked for deletion is not recognised *)
+Lemma marked_tree_pack_needs_both_sections_lemma :
+  exists e, ie_blob e = Tree /\
+    existsb (sec_eqb (ie_sec e)) [SecPacks] = false /\
+    existsb (sec_eqb (ie_sec e)) [SecPacks; SecPacksToDelete] = true.
+Proof. exists (mkie SecPacksToDelete 1 Tree). repeat split. Qed.
